@@ -284,32 +284,49 @@ def part(run, tier, pid, props, per):
                                            'cases': len(items), 'judged': judged, 'nontrivial_cases': nontrivial, 'rejected': rejected,
                                            'directed': sum(1 for c, _, _, _ in items if c['gc'].G.is_directed()),
                                            'seeded': sum(1 for _, h, _, _ in items if 'seed' in h), 'stats': stats, 'samples': samples[:2]}
-    if pid == 'C04':
-        complex_part(run, EoN, sim, tier, per)
+    if pid in ('C04', 'C10'):
+        complex_part(run, EoN, sim, tier, per, pid)
 
 
 # ------------------------------------------------------------------ Gillespie_complex_contagion (C04) ----
 CENTRY = 'Gillespie_complex_contagion'
 
 
-def complex_line(CL, case, rows):
-    """the arrays of Gillespie_complex_contagion against wf_gtrajb with every status-to-status move allowed
-    (Props/C04gen.v, C04gen_complex_rows_well_formed): the moves are given to the driver as spec edges a -> b"""
+def complex_line(CL, case, rows, hist=None):
+    """the outputs of Gillespie_complex_contagion against wf_gtrajb / consistent_b with every status-to-status move
+    allowed (Props/C04gen.v C04gen_complex_rows_well_formed, Props/C10gen.v C10gen_complex_summary_equals_arrays):
+    the moves are given to the driver as spec edges a -> b over the status universe"""
     gc = case['gc']; ns = case['ns']
-    t = ['GENX', gc.tokens(), str(ns * ns)]
-    for a in range(ns):
-        for b in range(ns): t += [str(a), str(b), '1 1']
+    U = sorted(set(range(ns)) | set(case['rs']))
+    t = ['GENX', gc.tokens(), str(len(U) ** 2)]
+    for a in U:
+        for b in U: t += [str(a), str(b), '1 1']
     t.append('0')
     t += [str(s) for s in case['ic']]
     t += [str(len(case['rs']))] + [str(x) for x in case['rs']]
     t += [C.qtok(case['tmin']), R.opt_q(case['tmax']), '1' if set(range(ns)) <= set(case['rs']) else '0']
     t += ['1', str(len(rows))]
     for tm, cs in rows: t += [C.qtok(F(tm))] + [str(c) for c in cs]
-    t += ['0', '0', '0']
+    if hist is None: t.append('0')
+    else:
+        t += ['1', str(len(gc.order))]
+        for i in range(len(gc.order)):
+            h = hist[i]; t.append(str(len(h)))
+            for tm, st in h: t += [C.qtok(F(tm)), str(st)]
+    t += ['0', '0']
     return ' '.join(t)
 
 
-def complex_part(run, EoN, sim, tier, per):
+def complex_full_ok(case, full):
+    """the hypotheses of C10gen_complex_summary_equals_arrays on the implementation's full-data output: return
+    statuses distinct and covering, no two events at the same instant, none at tmin"""
+    if not (set(range(case['ns'])) <= set(case['rs']) and len(set(case['rs'])) == len(case['rs'])): return False
+    if not full or full.get('status') != 'OK' or any(isinstance(h, str) for h in full['hist'].values()): return False
+    times = [F(t) for h in full['hist'].values() for t, _ in h[1:]]
+    return len(set(times)) == len(times) and all(t > case['tmin'] for t in times)
+
+
+def complex_part(run, EoN, sim, tier, per, pid='C04'):
     try:
         from . import complex_lib as CL
     except ImportError:
@@ -326,29 +343,38 @@ def complex_part(run, EoN, sim, tier, per):
     outs = C.run_model([CL.model_line(c, 'W ' + R.ent_tokens(rng)) for c in cases], CL.COMP)
     lines = []; idx = []
     crashed = 0
+    field, chk, thm = {'C04': ('traj', 'wf_gtrajb', 'C04gen_complex_rows_well_formed'), 'C10': ('cons', 'consistent_b', 'C10gen_complex_summary_equals_arrays')}[pid]
     for c, o in zip(cases, outs):
         m = R.parse_model_line(o)
         if m['status'] == 'DRIVERFAIL': continue
         impl = CL.run_impl(EoN, sim, c, m['draws'], full=False)
         if impl['status'] == 'EXC':
             crashed += 1
-            run.violation('C04/%s/returns' % CENTRY, 'on a well-formed input (influence set covering, plain mode) the model returns for every draw script (C15_every_run); the implementation raised %s' % impl.get('err'),
-                          dict(CL.case_json(c, m['draws']), genx=True, checker_genx='returns', entry='generic:' + CENTRY))
+            if pid == 'C04':
+                run.violation('C04/%s/returns' % CENTRY, 'on a well-formed input (influence set covering, plain mode) the model returns for every draw script (C15_every_run); the implementation raised %s' % impl.get('err'),
+                              dict(CL.case_json(c, m['draws']), genx=True, checker_genx='returns', entry='generic:' + CENTRY))
             continue
         rows = impl.get('rows')
         if impl['status'] != 'OK' or not isinstance(rows, list) or not all(len(cs) == len(c['rs']) for _, cs in rows): continue
-        lines.append(complex_line(CL, c, rows)); idx.append((c, m['draws'], rows))
+        hist = None
+        if pid == 'C10':
+            if not (set(range(c['ns'])) <= set(c['rs']) and len(set(c['rs'])) == len(c['rs'])): continue
+            full = CL.run_impl(EoN, sim, c, m['draws'], full=True)
+            if not complex_full_ok(c, full): continue
+            hist = full['hist']
+        lines.append(complex_line(CL, c, rows, hist)); idx.append((c, m['draws'], rows, hist))
     judged = rejected = nontrivial = 0
-    for (c, draws, rows), o in zip(idx, C.run_model(lines, COMP)):
+    for (c, draws, rows, hist), o in zip(idx, C.run_model(lines, COMP)):
         v = parse_verdict(o)
         if 'fail' in v:
-            run.violation('C04/genx/driver', 'checker driver failed: %r' % (v['fail'],), dict(CL.case_json(c, draws), genx=True), no_input=True); continue
+            run.violation('%s/genx/driver' % pid, 'checker driver failed: %r' % (v['fail'],), dict(CL.case_json(c, draws), genx=True), no_input=True); continue
         judged += 1; nontrivial += len(rows) >= 3
-        if v.get('traj') is False:
+        if v.get(field) is False:
             rejected += 1
-            run.violation('C04/%s/wf_gtrajb' % CENTRY, 'the extracted checker wf_gtrajb (proved sound and accepted on every model run, Props/C04gen.v C04gen_complex_rows_well_formed) rejects the implementation\'s arrays: %r' % (rows[:8],),
-                          dict(CL.case_json(c, draws), genx=True, checker_genx='wf_gtrajb', entry='generic:' + CENTRY))
-    per['%s/extracted-checker' % CENTRY] = {'proved': True, 'props': 'Props/C04gen.v', 'checkers': ['wf_gtrajb'], 'cases': len(cases), 'judged': judged,
+            run.violation('%s/%s/%s' % (pid, CENTRY, chk), 'the extracted checker %s (proved sound and accepted on every model run, Props/%sgen.v %s) rejects the implementation\'s output: arrays %r%s' % (
+                          chk, pid, thm, rows[:8], '' if hist is None else ' node histories %r' % (dict(list(hist.items())[:4]),)),
+                          dict(CL.case_json(c, draws), genx=True, checker_genx=chk, entry='generic:' + CENTRY))
+    per['%s/extracted-checker' % CENTRY] = {'proved': True, 'props': 'Props/%sgen.v' % pid, 'checkers': [chk], 'cases': len(cases), 'judged': judged,
                                             'nontrivial_cases': nontrivial, 'rejected': rejected, 'impl_failed': crashed}
 
 
@@ -376,7 +402,9 @@ def run(run, tier):
     for pid in ('C04', 'C09', 'C10'):
         j, n, r, s = apply_checkers(run, pid, items, stats)
         per[pid] = {'judged': j, 'rejected': r}; tot += j; nt = max(nt, n); samples = samples or s
-    complex_part(run, EoN, sim, tier, per)
+    complex_part(run, EoN, sim, tier, per, 'C04')
+    per['C04/' + CENTRY] = per.pop('%s/extracted-checker' % CENTRY, None)
+    complex_part(run, EoN, sim, tier, per, 'C10')
     C.proof_coverage(run, props, tot, nt,
                      'random specifications (families %s) on random graphs of 1-6 nodes, directed and undirected, weight labels / rate functions, string / tuple / unorderable statuses, '
                      'return_statuses full / subset / repeated / unknown; the implementation run in both return modes on the same draws (scripted draws chosen by the extracted model; seeded runs of the real '
@@ -395,9 +423,11 @@ def replay(rp):
         print('implementation:', impl['status'], impl.get('err', ''), impl.get('rows'))
         if impl['status'] == 'EXC': return 1
         if impl['status'] != 'OK' or not isinstance(impl.get('rows'), list): return 0
-        v = parse_verdict(C.run_model([complex_line(CL, case, impl['rows'])], COMP)[0])
-        print('extracted wf_gtrajb on the arrays:', v)
-        return 1 if v.get('traj') is False else 0
+        full = CL.run_impl(EoN, sim, case, draws, full=True)
+        hist = full['hist'] if complex_full_ok(case, full) else None
+        v = parse_verdict(C.run_model([complex_line(CL, case, impl['rows'], hist)], COMP)[0])
+        print('extracted checkers on the arrays%s:' % ('' if hist is None else ' and node histories'), v)
+        return 1 if (v.get('traj') is False or (hist is not None and v.get('cons') is False)) else 0
     case = L.case_from_json(j); case['entry'] = ENTRY
     how = j.get('how', {})
     C.build_driver(COMP)
